@@ -43,6 +43,9 @@ func (c ConvCase) key() string {
 func genConvCase(t *rapid.T, maxConvs int, kinds []int, o kit.GenOpts, topoKinds []string) ConvCase {
 	c := ConvCase{}
 	c.Topo = kit.Topo{Kind: rapid.SampledFrom(topoKinds).Draw(t, "topo"), Serialize: rapid.Bool().Draw(t, "ser"), Clients: 1}
+	if c.Topo.Kind == "proxy" {
+		c.Topo.Alias = rapid.Bool().Draw(t, "alias")
+	}
 	if rapid.IntRange(0, 3).Draw(t, "multi") == 0 {
 		c.Topo.Clients = rapid.IntRange(2, 3).Draw(t, "clients")
 	}
@@ -98,7 +101,7 @@ func (c ConvCase) opts() kit.RunOpts {
 
 // convLabels computes the common labels of a conv case.
 func convLabels(c ConvCase, tap []kit.Ev) (labels []string, interleaved bool, maxMsgs int, concurrent bool) {
-	labels = append(labels, "topo="+c.Topo.Kind, fmt.Sprintf("ser=%v", c.Topo.Serialize), fmt.Sprintf("gated=%v", c.GateA || c.GateB), fmt.Sprintf("intercept=%v", c.Intercept), fmt.Sprintf("stats=%v", c.Stats), fmt.Sprintf("time_passes=%v", c.TickMs > 0), fmt.Sprintf("dead_calls_before=%v", c.DeadCalls > 0))
+	labels = append(labels, fmt.Sprintf("proxy_rewrites_address=%v", c.Topo.Alias), "topo="+c.Topo.Kind, fmt.Sprintf("ser=%v", c.Topo.Serialize), fmt.Sprintf("gated=%v", c.GateA || c.GateB), fmt.Sprintf("intercept=%v", c.Intercept), fmt.Sprintf("stats=%v", c.Stats), fmt.Sprintf("time_passes=%v", c.TickMs > 0), fmt.Sprintf("dead_calls_before=%v", c.DeadCalls > 0))
 	nstreams := 0
 	for _, cv := range c.Convs {
 		labels = append(labels, "kind="+kit.KindNames[cv.Kind])
@@ -508,3 +511,113 @@ func execC02Burst(t *testing.T, c C02Burst) (v Verdict) {
 }
 
 func TestC02Burst(t *testing.T) { checkProp(t, "C02", "burst", genC02Burst, execC02Burst) }
+
+// ---- C02 other connection's Serve context: what happens to one connection must not reach another --------------
+
+// C02OtherCtx: one Server serves 2..3 connections, each through its own Serve call with its own context. A ping-pong
+// stream runs on connection 0. Between two of its messages the context that was passed to Serve for ANOTHER connection
+// is cancelled (the application gave up on that peer). The stream on connection 0 must still deliver every message in
+// order and end with io.EOF; a connection attached to the same Server afterwards must work as well.
+type C02OtherCtx struct {
+	Conns    int  `json:"conns"`
+	Msgs     int  `json:"msgs"`
+	CancelAt int  `json:"cancel_at"` // after this many round trips
+	Ser      bool `json:"ser"`
+	Stats    bool `json:"stats,omitempty"`
+}
+
+func genC02OtherCtx(t *rapid.T) C02OtherCtx {
+	c := C02OtherCtx{Conns: rapid.IntRange(2, 3).Draw(t, "conns"), Msgs: rapid.IntRange(1, 6).Draw(t, "msgs"), Ser: rapid.Bool().Draw(t, "ser"), Stats: rapid.IntRange(0, 3).Draw(t, "stats") == 0}
+	c.CancelAt = rapid.IntRange(0, c.Msgs).Draw(t, "cancel_at")
+	return c
+}
+
+func execC02OtherCtx(t *testing.T, c C02OtherCtx) (v Verdict) {
+	var got [][]byte
+	var end *kit.ErrObs
+	var lateReply []byte
+	var lateErr error
+	res := kit.Bubble(t, func() {
+		svc := kit.NewSvc()
+		svc.Unary("u", func(ctx context.Context, req []byte) ([]byte, error) { return req, nil })
+		svc.Stream("pp", true, true, func(s grpcServerStream) error {
+			for {
+				b, err := kit.RecvBytes(s)
+				if err != nil {
+					return nil
+				}
+				if err := kit.SendBytes(s, append([]byte("pp:"), b...)); err != nil {
+					return err
+				}
+			}
+		})
+		w := kit.NewWorld(kit.Topo{Kind: "direct", Serialize: c.Ser, Clients: c.Conns, Stats: c.Stats}, svc, nil, nil)
+		ctx, cancel := context.WithTimeout(context.Background(), time.Hour)
+		defer cancel()
+		cs, err := w.Conn(0).NewStream(ctx, kit.StreamDescFor(kit.KindBidi), kit.FullMethod("pp"))
+		if err != nil {
+			v.failf("open: %v", err)
+			return
+		}
+		for k := 0; k <= c.Msgs; k++ {
+			if k == c.CancelAt {
+				kit.Settle()
+				w.CancelServeCtxOf(kit.ClientName(c.Conns - 1)) // the application gives up on another peer
+				kit.Settle()
+			}
+			if k == c.Msgs {
+				break
+			}
+			if err := kit.SendBytes(cs, []byte{byte(k)}); err != nil {
+				v.failf("send %d on connection 0 failed after the Serve context of connection %d had been cancelled: %v", k, c.Conns-1, err)
+				return
+			}
+			b, err := kit.RecvBytes(cs)
+			if err != nil {
+				e := kit.Observe(err)
+				end = &e
+				break
+			}
+			got = append(got, b)
+		}
+		if end == nil {
+			_ = cs.CloseSend()
+			_, err := kit.RecvBytes(cs)
+			e := kit.Observe(err)
+			end = &e
+		}
+		// a connection that joins the same Server afterwards
+		late := kit.NewLink("late", w.Tap, c.Ser)
+		go func() { _ = w.Server.Serve(context.Background(), late.B) }()
+		lcc := goat.NewClientConn(late.A, "late", kit.ServerName)
+		lateReply, lateErr = kit.Invoke(ctx, lcc, "u", []byte("late"))
+		late.Close()
+		lcc.Close()
+		w.Shutdown()
+		kit.Settle()
+	})
+	if res.Panic != nil {
+		v.failf("panic: %v\n%s", res.Panic, res.Stack)
+	}
+	for k, b := range got {
+		if !bytes.Equal(b, []byte{'p', 'p', ':', byte(k)}) {
+			v.failf("stream on connection 0: reply %d is %v", k, b)
+		}
+	}
+	if end == nil || !end.EOF || len(got) != c.Msgs {
+		raw := "(none)"
+		if end != nil {
+			raw = end.Raw
+		}
+		v.failf("stream on connection 0 got %d of %d replies and ended with %q after the Serve context of connection %d (another connection of the same Server) was cancelled; want all of them and io.EOF", len(got), c.Msgs, raw, c.Conns-1)
+	}
+	if lateErr != nil || !bytes.Equal(lateReply, []byte("late")) {
+		v.failf("a connection served by the same Server afterwards does not work: %v", lateErr)
+	}
+	v.Info = kit.CaseInfo{Labels: []string{"other-serve-ctx", fmt.Sprintf("otherctx.mid_stream=%v", c.CancelAt > 0 && c.CancelAt < c.Msgs)}, NonTrivial: c.Msgs >= 2, Key: fmt.Sprintf("%+v", c), Sample: c}
+	return
+}
+
+func TestC02OtherCtx(t *testing.T) {
+	checkProp(t, "C02", "other-serve-ctx", genC02OtherCtx, execC02OtherCtx)
+}
